@@ -195,6 +195,9 @@ add("C03",
 
 # ---------------------------------------------------------------- C20
 add("C20",
+    V("split-result-memo-on-shared-dictionary", "C20", [("dateparser/languages/dictionary.py", "        self._relative_strings = list(chain.from_iterable(relative_type_regex.values()))\n", "        self._relative_strings = list(chain.from_iterable(relative_type_regex.values()))\n        self._last_split = None\n"),
+        ("dateparser/languages/dictionary.py", "        return list(filter(bool, chain.from_iterable(tokens)))\n", "        tokens = list(filter(bool, chain.from_iterable(tokens)))\n        self._last_split = ((string, keep_formatting), tuple(tokens))\n        return tokens\n")], "fire", "C20.R1",
+      note="seeded change C03-4: a per-call value stored on a Dictionary that lives as long as its Locale"),
     V("revert-fix-abbreviations-first-caller", "C20", [(LOCALE, "        # the dictionary depends on the settings (SKIP_TOKENS), so do the abbreviations\n        if settings.registry_key not in self._abbreviations:\n            self._abbreviations[settings.registry_key] = [\n                item for item in dictionary if item.endswith(\".\") and len(item) > 1\n            ]\n        return self._abbreviations[settings.registry_key]\n", "        abbreviations = []\n        if not self._abbreviations:\n            for item in dictionary:\n                if item.endswith(\".\") and len(item) > 1:\n                    abbreviations.append(item)\n            self._abbreviations = abbreviations\n        return self._abbreviations\n")], "fire", "C20.R1",
       note="the abbreviations computed from the first caller's dictionary serve every later caller"),
     V("new-global-counter", "C20", [(DATE, "        if not isinstance(date_string, str):\n            raise TypeError(\"Input type must be str\")\n",
@@ -259,6 +262,8 @@ add("C10",
 # ---------------------------------------------------------------- C01
 STRP = "dateparser/utils/strptime.py"
 add("C01",
+    V("subsecond-digits-through-a-float", "C01", [(DATE, "        date_obj = datetime.fromtimestamp(seconds, timezone).replace(\n            microsecond=millis * 1000 + micros, tzinfo=None\n        )\n", "        date_obj = datetime.fromtimestamp(\n            seconds + (millis * 1000 + micros) / 1e6, timezone\n        ).replace(tzinfo=None)\n")], "fire", "C01.R1", note="seeded change C01-3: off by a microsecond from 2**33 seconds on"),
+    V("twin-subsecond-digits-through-timedelta", "C01", [(DATE, "        date_obj = datetime.fromtimestamp(seconds, timezone).replace(\n            microsecond=millis * 1000 + micros, tzinfo=None\n        )\n", "        date_obj = (datetime.fromtimestamp(seconds, timezone) + timedelta(microseconds=millis * 1000 + micros)).replace(\n            tzinfo=None\n        )\n")], "silent"),
     V("millis-scale-100", "C01", [(DATE, "microsecond=millis * 1000 + micros", "microsecond=millis * 100 + micros")], "fire", "C01.R1"),
     V("epoch-11-digits", "C01", [(DATE, 'RE_SEARCH_TIMESTAMP = re.compile(r"^(\\d{10})(\\d{3})?(\\d{3})?(?![^.])")', 'RE_SEARCH_TIMESTAMP = re.compile(r"^(\\d{10,11})(\\d{3})?(\\d{3})?(?![^.])")')], "fire", "C01.R1"),
     V("negative-regex-for-positive", "C01", [(DATE, "    if negative:\n        match = RE_SEARCH_NEGATIVE_TIMESTAMP.search(date_string)\n    else:\n        match = RE_SEARCH_TIMESTAMP.search(date_string)", "    match = RE_SEARCH_NEGATIVE_TIMESTAMP.search(date_string) or RE_SEARCH_TIMESTAMP.search(date_string)")], "fire", "C01.R1"),
